@@ -555,8 +555,9 @@ def check_C13(ctx):
                           ("eprogs", ["eprogs", c.seed, _n(c, 4000, 60000)])],
         rule="programs of Encoder calls (typed writers, RepeatedEnum, UnrecognizedFields, Message/AlwaysMessage/PresentMessage/AlwaysAnyBytes nested to depth 3, callbacks that write and "
              "then report absence, bodies of 0/127/128/16383/16384 bytes, fresh / reused-with-stale-content / one-byte-capacity buffers); exhaustive grids: 60 typed writers x boundary value alphabet x field-number alphabet (1..2^29-1 boundaries) x dirty/tight buffers, lists across packed length classes; "
-             "30 typed readers x pending{same,other} x wire types 0-7 x payload alphabet (valid, empty, truncated, overlong, packed); reference = protobuf-go protowire; "
-             "non-trivial = non-default value / payload longer than a tag"))
+             "30 typed readers x pending{same,other} x wire types 0-7 x payload alphabet (valid, empty, truncated, overlong, packed), non-zero initial lists; "
+             "1500 sequences of reader calls over one input with destinations that persist from call to call (every step a reader row; afterwards no earlier output and no input byte may have changed); "
+             "reference = protobuf-go protowire; non-trivial = non-default value / payload longer than a tag"))
 
 
 def check_C15(ctx):
@@ -565,7 +566,7 @@ def check_C15(ctx):
         suites=lambda c: [("writers", ["writers", c.seed] + (["thorough"] if c.tier == "thorough" else [])), ("readers", ["readers", c.seed, _n(c, 1500, 20000)])] +
                          ([("sweep32", ["sweep32", c.seed])] if c.tier == "thorough" else []),
         filter=lambda r: r["suite"] == "sweep32" or r["cols"][0] in K32,
-        rule="writer/reader grids restricted to the 32-bit kinds (bool,int32,sint32,sfixed32,uint32,fixed32,float; enum uses the int32 writer); "
+        rule="writer/reader grids and reader sequences (persistent destinations, several packed/unpacked records per list) restricted to the 32-bit kinds (bool,int32,sint32,sfixed32,uint32,fixed32,float; enum uses the int32 writer); "
              "thorough adds the exhaustive 2^32 sweep of every kind against a Go transcription of closed_form; non-trivial = non-default")
     return run_leaf_property(ctx, spec)
 
@@ -604,12 +605,12 @@ def _c19_unmarshal_errors(ctx):
 
 def check_C19(ctx):
     return run_leaf_property(ctx, dict(
-        theorems=["C19_str", "C19_err_wire"],
+        theorems=["C19_str", "C19_err_wire", "C19_reader_names_itself", "C19_repeated_reader_names_itself", "C19_unmarshal_error_names_field"],
         suites=lambda c: [("fnstr", ["fnstr", c.seed, _n(c, 3000, 200000)]), ("readers", ["readers", c.seed, _n(c, 1500, 20000)])],
         extra=_c19_unmarshal_errors,
         rule="FieldNumber.String on boundaries (0, +-10^k+-1, Min/MaxInt32) and random int32 against strconv.Itoa; reader grid compares (field, class) of every error; "
              "whole messages: 6000 malformed inputs (truncations, wrong wire types, damaged lengths and groups) and the deep-nesting inputs through Unmarshal - the returned error's "
-             "field number and class equal the decoder model's; non-trivial = non-zero"))
+             "field number and class equal the decoder model's, and the last eight errors returned keep their text after every later call; non-trivial = non-zero"))
 
 
 def check_C14(ctx):
@@ -617,7 +618,7 @@ def check_C14(ctx):
         theorems=["C14_dur_enc", "C14_dur_fits", "C14_dur_sat", "C14_dur_rt", "C14_ts_norm", "C14_ts_rt"],
         suites=lambda c: [("conv", ["conv", c.seed, _n(c, 1500, 100000)])],
         trusted=["modelled, not verified: Go time.Unix/Unix()/Nanosecond()/IsZero()/UTC() (from the Go standard library source), int64 wrap-around of time.Duration arithmetic"],
-        rule="(seconds,nanos) plane on a boundary grid (+-floor(MaxInt64/10^9)+-1, 0, +-1, int32/int64 extremes, mixed signs) x random; durations and instants; "
+        rule="(seconds,nanos) plane on a boundary grid (+-floor(MaxInt64/10^9)+-1, 0, +-1, int32/int64 extremes, mixed signs) x random; durations and instants (each instant in UTC, Local or a fixed zone; the zero instant in all three); "
              "reference = durationpb/timestamppb New/AsDuration/AsTime; non-trivial = not (0,0)"))
 
 
